@@ -133,7 +133,7 @@ def judge_cdb(ctx, cdb, origin, keyname=None):
         refs.append((toks, note))
     res = cppcheck(['--project=compile_commands.json', '-E'], cwd=root, timeout=120)
     resv = cppcheck(['--project=compile_commands.json', '-v', '--template={file}:{line}:{id}'], cwd=root, timeout=120)
-    ctx.ev()
+    ctx.ev(max(1, sum(1 for t, _ in refs if t is not None)))     # one evaluation per entry gcc accepted
     if res.timed_out or resv.timed_out:
         ctx.inconclusive('cppcheck watchdog fired: %s' % origin)
         return 0
@@ -148,7 +148,6 @@ def judge_cdb(ctx, cdb, origin, keyname=None):
     # C sources must be lexed with the C punctuator set; re-lex per entry below from text is not possible, the
     # sources contain no '::' '.*' '->*' '<=>' so both sets give the same tokens
     vblocks = verbose_blocks(resv.otext())
-    n_ok = sum(1 for t, _ in refs if t is not None)
     compared = 0
     if len(blocks) != len(cdb.entries):
         ctx.count('hist', 'E-output-block-count-differs-from-entries')
@@ -183,9 +182,13 @@ def judge_cdb(ctx, cdb, origin, keyname=None):
             extra = [d for d in dn if d not in allowed_d]
             un = [u.strip() for u in vb.get('Undefines', '').replace(';', ' ').split() if u.strip()]
             extra_u = [u for u in un if u not in e.undefs]
-            if extra or extra_u:
-                what = ('-v shows options the entry does not specify: extra defines %r, extra undefines %r '
-                        '(Defines:%s / Undefines:%s)' % (extra, extra_u, vb.get('Defines'), vb.get('Undefines')))
+            want_i = {os.path.realpath(os.path.join(os.path.normpath(e.directory), p_)) for p_ in (e.ipaths or [])}
+            got_i = [x[2:] for x in re.split(r' (?=-I)', vb.get('Includes', '').strip()) if x.startswith('-I')]
+            extra_i = [x for x in got_i if os.path.realpath(os.path.join(root, x)) not in want_i]
+            if extra or extra_u or (extra_i and e.ipaths is not None):
+                what = ('-v shows options the entry does not specify: extra defines %r, extra undefines %r, extra '
+                        'include paths %r (Defines:%s / Undefines:%s / Includes:%s)'
+                        % (extra, extra_u, extra_i, vb.get('Defines'), vb.get('Undefines'), vb.get('Includes')))
             else:
                 ctx.count('hist', 'verbose_blocks_checked')
         if what:
@@ -216,7 +219,7 @@ def run(ctx):
     ctx.assumptions.append('generator exclusions in force: %s' % (
         sorted(k for k, v in cdbgen.EXCL.items() if not v[0]) or 'none'))
     replay_known(ctx)
-    n = ctx.n(40, 2000)
+    n = ctx.n(40, 1200)
     pmap(lambda i: _case(ctx, i), range(n), workers=6)
 
 
@@ -248,6 +251,7 @@ def replay_known(ctx):
             if '-o' in argv:
                 e.out = argv[argv.index('-o') + 1]
             e.std = next((a[5:] for a in argv if a.startswith('-std=')), None)
+            e.ipaths = None
             e.defines = d.get('x-defines', [])
             e.undefs = d.get('x-undefs', [])
             e.features = set()
